@@ -44,3 +44,19 @@ Theorem master_checksum : forall version numTables pre dh post file,
   calcChecksum file = 2981146554.
 Proof. exact Proofs.master_checksum. Qed.
 Print Assumptions master_checksum.
+
+(* ---- WOFF2's transformed glyf table: the point triplets of a simple glyph (ModelTriplet.v: _encodeTriplets / _decodeTriplets,
+   all 128 delta classes) decode to the points that were encoded and leave what follows in both streams untouched *)
+From FV Require C04.ModelTriplet C04.ProofsTriplet.
+Theorem woff2_triplets_roundtrip : forall pts fs ts frest trest, ModelTriplet.encodeTriplets pts = Ok (fs, ts) ->
+  ModelTriplet.decodeTriplets (length pts) (fs ++ frest) (ts ++ trest) = Ok (pts, frest, trest).
+Proof. exact ProofsTriplet.triplets_roundtrip. Qed.
+Print Assumptions woff2_triplets_roundtrip.
+
+(* the encoder accepts a step exactly when both of its components fit 16 bits *)
+Theorem woff2_triplet_accepts : forall x y on, Z.abs x < 65536 -> Z.abs y < 65536 -> exists f bs, ModelTriplet.enc_point x y on = Ok (f, bs).
+Proof. exact ProofsTriplet.enc_point_ok. Qed.
+Print Assumptions woff2_triplet_accepts.
+Theorem woff2_triplet_refuses : forall x y on, 65536 <= Z.abs x \/ 65536 <= Z.abs y -> ModelTriplet.enc_point x y on = Err OverflowError.
+Proof. exact ProofsTriplet.enc_point_too_far. Qed.
+Print Assumptions woff2_triplet_refuses.
